@@ -206,7 +206,9 @@ pers_harness!(c01_o3_periodic_idle, c01_o3_periodic_idle__witness, periodic_idle
 // ---------------------------------------------------------------------------------------------
 // C03 O3.4: a failed append leaves the log where it was (or reports the rollback failure)
 // ---------------------------------------------------------------------------------------------
-fn failed_append_body(witness: bool) {
+/// kind 0: the frame write stops after `short` bytes and fails; kind 1: frame written, fsync fails.
+/// rollback_fault: 0 none, 1 set_len fails, 2 seek fails.  retry: also exercise a fault-free retry.
+fn failed_append(kind: u8, short: usize, rollback_fault: u8, retry: bool, witness: bool) {
     let mut w = new_writer(FsyncPolicy::Always);
     let e1 = any_entry();
     let e2 = any_entry();
@@ -217,58 +219,61 @@ fn failed_append_body(witness: bool) {
     let stable_offset = w.bytes_written;
     let stable_count = w.entry_count;
     let before = vfs::state(0);
-    // symbolic fault plan for the second append
-    let kind: u8 = kani::any();
-    kani::assume(kind < 3);
-    let short: usize = kani::any();
-    kani::assume(short < FRAME_EMPTY);
-    let rollback_fault: u8 = kani::any();
-    kani::assume(rollback_fault < 3); // 0 none, 1 set_len fails, 2 seek fails
     unsafe {
-        match kind {
-            0 => {
-                vfs::FAULTS.write_fail_at = vfs::COUNTERS.writes; // the frame write stops after `short` bytes
-                vfs::FAULTS.write_short = short;
-            }
-            1 => {
-                vfs::FAULTS.sync_fail_at = vfs::COUNTERS.syncs; // frame fully written, fsync fails
-            }
-            _ => {}
+        if kind == 0 {
+            vfs::FAULTS.write_fail_at = vfs::COUNTERS.writes;
+            vfs::FAULTS.write_short = short;
+        } else {
+            vfs::FAULTS.sync_fail_at = vfs::COUNTERS.syncs;
         }
-        if kind != 2 {
-            vfs::FAULTS.set_len_fails = (rollback_fault == 1) as usize;
-            vfs::FAULTS.seek_fails = (rollback_fault == 2) as usize;
-        }
+        vfs::FAULTS.set_len_fails = (rollback_fault == 1) as usize;
+        vfs::FAULTS.seek_fails = (rollback_fault == 2) as usize;
     }
     let r2 = w.append_internal_with_rollback(&e2, stable_offset, stable_count);
     let ok2 = r2.is_ok();
     std::mem::forget(r2);
     let st = vfs::state(0);
     if witness {
-        kani::cover!(!ok2 && kind == 0 && short > 0 && st.len == stable_offset as usize, "short write rolled back");
-        kani::cover!(!ok2 && kind == 1, "failed fsync reported");
-        kani::cover!(ok2, "fault-free append acknowledged");
+        kani::cover!(!ok2, "failed append reported");
         std::mem::forget(w);
         return;
     }
-    assert!(ok2 == (kind == 2), "C03: an append is acknowledged iff no write/fsync fault occurred");
-    if ok2 {
-        assert!(st.len == 4 + 2 * FRAME_EMPTY && frame_ok(4, &e1) && frame_ok(4 + FRAME_EMPTY, &e2) && st.durable_len == st.len, "C03: acknowledged => recoverable, durable frame");
-        assert!(w.bytes_written as usize == st.len && w.entry_count == 2);
-    } else if rollback_fault == 0 || (kind == 1 && false) {
-        // rollback ran without a fault of its own: the log is exactly what it was
-        assert!(st.len == stable_offset as usize, "C03: failed append: file truncated back to the last good offset");
+    assert!(!ok2, "C03: an append that hit a write/fsync fault is never acknowledged");
+    if rollback_fault == 0 {
+        assert!(st.len == stable_offset as usize && st.len == before.len, "C03: failed append: file truncated back to the last good offset");
         assert!(w.bytes_written == stable_offset && w.entry_count == stable_count, "C03: failed append: writer counters restored");
-        assert!(frame_ok(4, &e1) && st.len == before.len, "C03: failed append: earlier acknowledged frame untouched");
-        // and the writer is usable: a following fault-free append yields exactly two well-formed frames
-        vfs::no_faults();
-        let r3 = w.append_internal_with_rollback(&e2, w.bytes_written, w.entry_count);
-        let ok3 = r3.is_ok();
-        std::mem::forget(r3);
-        let st3 = vfs::state(0);
-        assert!(ok3 && st3.len == 4 + 2 * FRAME_EMPTY && frame_ok(4, &e1) && frame_ok(4 + FRAME_EMPTY, &e2), "C03: retry after rollback produces a clean log");
+        assert!(frame_ok(4, &e1), "C03: failed append: earlier acknowledged frame untouched");
+        if retry {
+            vfs::no_faults();
+            let r3 = w.append_internal_with_rollback(&e2, w.bytes_written, w.entry_count);
+            let ok3 = r3.is_ok();
+            std::mem::forget(r3);
+            let st3 = vfs::state(0);
+            assert!(ok3 && st3.len == 4 + 2 * FRAME_EMPTY && frame_ok(4, &e1) && frame_ok(4 + FRAME_EMPTY, &e2) && st3.durable_len == st3.len, "C03: retry after rollback produces a clean, durable two-frame log");
+            assert!(w.bytes_written as usize == st3.len && w.entry_count == 2);
+        }
     }
     std::mem::forget(w);
 }
 
-pers_harness!(c03_o4_failed_append_rollback, c03_o4_failed_append_rollback__witness, failed_append_body, 50);
+fn short_write_body(witness: bool) {
+    let short: usize = kani::any();
+    kani::assume(short < FRAME_EMPTY);
+    failed_append(0, short, 0, false, witness);
+}
+fn fsync_fails_body(witness: bool) {
+    failed_append(1, 0, 0, false, witness);
+}
+fn rollback_fails_body(witness: bool) {
+    let rf: u8 = kani::any();
+    kani::assume(rf == 1 || rf == 2);
+    failed_append(0, 10, rf, false, witness);
+}
+fn retry_body(witness: bool) {
+    failed_append(0, 10, 0, true, witness);
+}
+
+pers_harness!(c03_o4_short_write_rolled_back, c03_o4_short_write_rolled_back__witness, short_write_body, 50);
+pers_harness!(c03_o4_failed_fsync_rolled_back, c03_o4_failed_fsync_rolled_back__witness, fsync_fails_body, 50);
+pers_harness!(c03_o4_rollback_failure_surfaces, c03_o4_rollback_failure_surfaces__witness, rollback_fails_body, 50);
+pers_harness!(c03_o4_retry_after_rollback, c03_o4_retry_after_rollback__witness, retry_body, 50);
